@@ -106,6 +106,9 @@ type gluelockEnv struct {
 
 const gluelockHost = "https://repo.test"
 
+// the error of build.unify (F09g makes it depend on the iteration order of a Go map)
+const gluelockUnifyErr = "unable to lock packages to a consistent version"
+
 func gluelockReadTree(dir string) map[string][]byte {
 	m := map[string][]byte{}
 	collectDir(dir, "", m)
@@ -187,16 +190,25 @@ func (e *gluelockEnv) build(c gluelockCombo, cacheDir, lockText string) E2EOut {
 	os.MkdirAll(out, 0o755)
 	os.MkdirAll(sb, 0o755)
 	defer os.RemoveAll(out)
-	opts := append(e.opts(c, cacheDir), build.WithSourceDateEpoch(time.Unix(1700000000, 0)), build.WithLockFile(lp))
-	if err := verifapi.BuildCmd(context.Background(), "verif.test/img:latest", out, e.archs, nil, false, sb, opts...); err != nil {
-		return E2EOut{Err: err}
+	// `apko build` locks the configuration before it builds; with F09g (unify depends on the map order of the
+	// architectures) that step fails or not from run to run on the same inputs. Such a refusal says nothing about the
+	// variant under test, so the build is repeated.
+	for attempt := 0; ; attempt++ {
+		opts := append(e.opts(c, cacheDir), build.WithSourceDateEpoch(time.Unix(1700000000, 0)), build.WithLockFile(lp))
+		err := verifapi.BuildCmd(context.Background(), "verif.test/img:latest", out, e.archs, nil, false, sb, opts...)
+		if err == nil {
+			break
+		}
+		if attempt >= 3 || !gluelockUnifyRefusal(err) {
+			return E2EOut{Err: err}
+		}
+		os.RemoveAll(out)
+		os.MkdirAll(out, 0o755)
 	}
 	files := map[string][]byte{}
 	collectDir(out, "layout/", files)
 	if os.Getenv("GLUELOCK_DEBUG") != "" {
-		for n, b := range files {
-			fmt.Fprintf(os.Stderr, "gluelock: out %s %d %x\n", n, len(b), b[:min(4, len(b))])
-		}
+		fmt.Fprintf(os.Stderr, "gluelock: build wrote %d files\n", len(files))
 	}
 	return E2EOut{Files: files}
 }
@@ -416,6 +428,13 @@ func (e *gluelockEnv) hash() string {
 	return hx(string(s[:5]))
 }
 
+// gluelockUnifyRefusal: `apko build` locks the configuration before it builds; with F09g (unify depends on the iteration
+// order of a Go map of architectures) that step refuses or not from run to run on the same inputs. Such a refusal says
+// nothing about the variant under test and is never counted as a difference between variants.
+func gluelockUnifyRefusal(err error) bool {
+	return err != nil && strings.Contains(err.Error(), gluelockUnifyErr)
+}
+
 func gluelockErrStr(err error) string {
 	if err == nil {
 		return "ok"
@@ -531,6 +550,9 @@ func (e *gluelockEnv) optionSteps(c gluelockCombo, refLock string, refLockErr er
 			apk.VerifResetGlobalCaches()
 		}
 		builds[st] = e.build(c, dir, locks["off"])
+		if builds[st].Err != nil && os.Getenv("GLUELOCK_DEBUG") != "" {
+			fmt.Fprintf(os.Stderr, "gluelock: build --lockfile (%s, package cache %s): %v\n", c, st, builds[st].Err)
+		}
 	}
 	got = nil
 	verdict = "pass"
@@ -546,21 +568,30 @@ func (e *gluelockEnv) optionSteps(c gluelockCombo, refLock string, refLockErr er
 				fail("build --lockfile (%s) with package cache %s differs from the build without a package cache: installed sizes %s vs %s", c, st, gluelockSizes(o), gluelockSizes(builds["off"]))
 			}
 		}
-		if (o.Err == nil) != (builds["off"].Err == nil) {
+		if (o.Err == nil) != (builds["off"].Err == nil) && !gluelockUnifyRefusal(o.Err) && !gluelockUnifyRefusal(builds["off"].Err) {
 			fail("build --lockfile (%s) is %s with package cache %s and %s without", c, gluelockErrStr(o.Err), st, gluelockErrStr(builds["off"].Err))
 		}
 		got = append(got, st+"="+r)
 	}
 	if !c.HTTP && locks["off"] == refLock {
-		if (builds["off"].Err == nil) != (refBuild.Err == nil) {
+		if gluelockUnifyRefusal(builds["off"].Err) || gluelockUnifyRefusal(refBuild.Err) {
+			// no comparison possible
+		} else if (builds["off"].Err == nil) != (refBuild.Err == nil) {
 			fail("build --lockfile (%s) is %s, without that option %s", c, gluelockErrStr(builds["off"].Err), gluelockErrStr(refBuild.Err))
 		} else if refBuild.Err == nil && builds["off"].Summary() != refBuild.Summary() {
 			got = append(got, "ref=differs")
 			fail("build --lockfile (%s) differs from the build of the same lock without that option: installed sizes %s vs %s", c, gluelockSizes(builds["off"]), gluelockSizes(refBuild))
 		}
 	}
+	tags := []string{"glue:build-options:" + c.String(), "glue:build-options:" + strings.SplitN(verdict, ":", 2)[0]}
+	for _, st := range gluelockCacheStates {
+		if gluelockUnifyRefusal(builds[st].Err) {
+			tags = append(tags, "glue:build-options:refused-by-unify(F09g)")
+			break
+		}
+	}
 	steps = append(steps, Step{Line: "x.robust\tbuild-options-" + c.String() + "-" + e.hash(), Go: strings.Join(got, " "), Mode: "oracle-go", GoSpec: verdict, NoImpl: true,
-		Desc: "build --lockfile under the option matrix: " + desc, Tags: []string{"glue:build-options:" + c.String(), "glue:build-options:" + strings.SplitN(verdict, ":", 2)[0]}, Trivial: builds["off"].Err != nil})
+		Desc: "build --lockfile under the option matrix: " + desc, Tags: tags, Trivial: builds["off"].Err != nil})
 	return steps
 }
 
@@ -897,6 +928,9 @@ func (e *gluelockEnv) faultSteps(plan *gluelockPlan, lockText string) []Step {
 		apk.VerifResetGlobalCaches()
 		o := e.build(combo, "", lockText)
 		restore()
+		if gluelockUnifyRefusal(o.Err) {
+			continue // refused before the lock was looked at (F09g): says nothing about the fault
+		}
 		goOut := "err"
 		seen := "the build fails"
 		if o.Err == nil {
